@@ -1590,3 +1590,7 @@ mod tests {
         assert!(QrPayload::parse("MT:00", &mut buf).is_err());
     }
 }
+
+#[cfg(any(kani, verif_replay))]
+#[path = "/verif/kani/qr.rs"]
+pub(crate) mod verif_kani_qr;
